@@ -467,7 +467,7 @@ int main(int argc, char **argv) {
         spy::Delays d;
         int profile = (int) rng.below(4);
         if (profile == 1) { d.condEntry = 500; d.maxUs = 200; }
-        else if (profile == 2) { d.condEntry = 250; d.afterWake = 200; d.beforeLock = 80; d.afterUnlock = 80; d.beforeNotify = 150; d.threadStart = 300; d.afterCreate = 300; d.maxUs = 120; d.threadStartMaxUs = 500; }
+        else if (profile == 2) { d.condEntry = 250; d.afterWake = 200; d.beforeLock = 80; d.afterUnlock = 80; d.beforeNotify = 150; d.threadStart = 300; d.afterCreate = 300; d.maxUs = 120; d.spurious = 100; d.threadStartMaxUs = 500; }
         else if (profile == 3) { d.condEntry = 900; d.maxUs = 500; d.beforeNotify = 300; }
         int cpus = rng.chance(300) ? 1 : rng.chance(300) ? 2 : 0;
         spy::pinCpus(cpus, (int) rt::optInt("cpubase", 0));
